@@ -37,7 +37,10 @@ struct EnvState {
     bool monitor = false;
     bool in_inject = false;
     bool norm_full_len = false;
-    bool norm_zero_on_invalid = false;   // the normaliser reports an error (returns 0, writes nothing) for invalid UTF-8 (password operation only)
+    bool norm_zero_on_invalid = false;
+    bool errno_noise = false;            // dependencies return normally but leave errno set (EINTR retried, a failed probe, ...)
+    bool norm_alias_unsafe = false;      // the normalisers clear their output before reading their input (no aliasing promised)
+    bool syscall_faults = false;         // memory-locking calls of the library fail   // the normaliser reports an error (returns 0, writes nothing) for invalid UTF-8 (password operation only)
     bool misalign = false;          // allocator hands out blocks that are 8 but not 16 byte aligned
     bool lifo_reuse = false;        // allocator reuses the address of the block released last (same size)
     bool no_race_oracle = false;
@@ -53,6 +56,7 @@ struct EnvState {
     u64 shared_stores = 0;
     u64 mon_accesses = 0;
     u64 under_lock_accesses = 0;
+    u64 errno_seq = 0;
     int last_freed = -1;
     u64 seam_count[EV_NKINDS] = {0};
     int task_blk_seq[MAXT + 1] = {0};
